@@ -51,7 +51,7 @@ CHECKS = {
               'each base is evaluated under every fault of the list above; a case is (receiver key, bytes handed to DeserializeEncrypted / '
               'DeserializeUnencrypted). Non-trivial: the fault changes at least one byte; distinct by hash of (key, bytes).'),
         must_hit=['flip:keyid', 'flip:msgkey', 'flip:ciphertext', 'trunc:8..23-with-valid-keyid', 'trunc:<8', 'trunc:>=24', 'attacker:L<0',
-                  'attacker:L-just-above', 'attacker:L-huge', 'attacker:L-in-range', 'rekeyed', 'garbage', 'parity', 'plain:bad-length', 'plain:truncated-header', 'client:forged-plain-result', 'client:corrupted-result'],
+                  'attacker:L-just-above', 'attacker:L-huge', 'attacker:L-in-range', 'rekeyed', 'garbage', 'parity:low=10,negative=true', 'parity:low=00,negative=false', 'plain:parity:low=10,negative=true', 'plain:bad-length', 'plain:truncated-header', 'client:forged-plain-result', 'client:corrupted-result'],
         assumptions=['the reference acceptance decision reads the statement literally: key id, msg_key over header+declared body, 0<=L<=data, server parity; '
                      'an attacker-with-key packet that satisfies all four is accepted (the statement allows it)'],
     ),
@@ -265,13 +265,14 @@ CHECKS = {
         level_text=('An otherwise conformant key exchange (real client in a fresh process, reference server) is run with exactly one fault of the statement\'s list: nonce / '
                     'server_nonce echoed wrongly in resPQ, server_DH_params_ok, the decrypted server_DH_inner_data and dh_gen_ok (bit flip, random value, the other nonce, '
                     'zero); fingerprint list without the configured key; encrypted DH answer whose SHA-1 prefix does not match (prefix or content bit flipped); wrong '
-                    'new_nonce_hash (flip, hash2, hash3, random); wrong-kind replies (server_DH_params_fail, dh_gen_retry, dh_gen_fail). The catalogue is enumerated; '
+                    'new_nonce_hash (flip, hash2, hash3, random); wrong-kind replies (server_DH_params_fail, dh_gen_retry, dh_gen_fail). After a fault in the last step the server, '
+                    'which holds the negotiated key, may go on speaking (new_session_created, bad_server_salt or an update sealed under that key): nothing may be stored or sent then either. The catalogue is enumerated; '
                     'thorough covers every bit position of every field up to 160 bits.'),
         technique='fault enumeration over a generated baseline exchange against a scripted reference server (rapid + enumerated fault catalogue)',
         rule=('case = (baseline exchange, fault = step x field x corruption x bit position). Every executed fault is non-trivial; distinct by hash of the scenario. '
               'Oracle: CreateConnection returns a non-nil error (a panic is not an error return), no session file afterwards, no encrypted frame reaches the server, child alive.'),
         must_hit=['step:resPQ', 'step:dhParams', 'step:dhInner', 'step:dhGen', 'fault:resPQ.fingerprints:empty', 'fault:dhInner.sha1:prefix-flip', 'fault:dhInner.sha1:content-flip',
-                  'fault:dhGen.new_nonce_hash:flip', 'fault:dhGen.kind:gen_retry', 'fault:dhGen.kind:gen_fail', 'fault:dhParams.kind:params_fail', 'verdict:ok'],
+                  'fault:dhGen.new_nonce_hash:flip', 'fault:dhGen.kind:gen_retry', 'fault:dhGen.kind:gen_fail', 'fault:dhParams.kind:params_fail', 'aftermath sent: new-session', 'aftermath sent: bad-salt', 'aftermath sent: update', 'verdict:ok'],
         fold={'fault:': ('fault_classes_covered', 59)},
         assumptions=['not generated because the statement does not list them: a different server_nonce in resPQ (the server chooses it), corrupted pq, g, dh_prime, g_a, server_time'],
     ),
@@ -351,14 +352,14 @@ CHECKS = {
         thorough=dict(shards=16, checks=600, budget_s=3400),
         level_text=('Generated histories of 1..12 server-to-client events on a live client (fresh process per case, drained warning channel, one registered handler), each followed '
                     'by a probe request that must complete: every MTProto service constructor the client can be sent (pong, msgs_ack, new_session_created, bad_msg_notification, '
-                    'msgs_state_info, msgs_all_info, msg_detailed_info, msg_new_detailed_info, future_salts), rpc_result / rpc_error for unknown ids, a repeated result for an answered '
+                    'msgs_state_info, msgs_all_info, msg_detailed_info, msg_new_detailed_info, future_salts, bad_server_salt for an unknown or an already answered message, a silent salt rotation), rpc_result / rpc_error for unknown ids, a repeated result for an answered '
                     'request, API objects as updates, unregistered constructor ids, truncated / empty / random bodies, empty and nested containers, gzip_packed around any object, '
                     'content-related or not, and an orderly connection close (the server then expects a new connection whose frames are encrypted under the same key). Every event '
                     'kind is also run alone in four wrappings.'),
         technique='history generation (rapid) + per-event enumeration against a scripted reference server with a live client per case; state inspection for a stopped loop',
         rule=('case = list of server events with wrapping flags; after each a probe. Non-trivial: at least one event other than pong/ack; distinct by hash of the event list.'),
         must_hit=['event:' + k for k in ('pong', 'ack', 'new-session', 'bad-msg', 'state-info', 'all-info', 'detailed-info', 'new-detailed-info', 'future-salts', 'result-unknown',
-                  'result-again', 'error-unknown', 'update', 'updates-too-long', 'unknown-ctor', 'truncated', 'empty-body', 'empty-container', 'nested-container', 'raw-soup', 'close')] +
+                  'result-again', 'error-unknown', 'update', 'updates-too-long', 'unknown-ctor', 'truncated', 'empty-body', 'empty-container', 'nested-container', 'raw-soup', 'close', 'bad-salt-unknown', 'bad-salt-answered', 'rotate')] +
                  ['event-gzip-packed', 'event-in-container', 'handler-called', 'warning-surfaced', 'verdict:ok'],
         assumptions=['"close" is an orderly close (FIN); an abortive close (RST) is outside the statement - observed: the client then neither reconnects nor reports anything (noted in DESIGN.md)',
                      'a request made while the client swaps connections may fail with a write error; the probe after a close is repeated until the new connection is in use',
